@@ -459,7 +459,7 @@ func (P) Generate(g *core.Gen) {
 		{2000, 0, 0, 0}, {2001, 7, 3, 1}, {1500, 500, 400, 3}} {
 		g.Case("inv-trickle", c[0] > 0, fmt.Sprintf("C18 inv %d %d %d %d", c[0], c[1], c[2], c[3]))
 	}
-	for i, n := 0, g.N(4, 60); i < n; i++ {
+	for i, n := 0, g.N(2, 60); i < n; i++ {
 		nn := int(r.Range(1, 3200))
 		k := r.Intn(nn/2 + 1)
 		d := r.Intn(nn - k + 1)
@@ -503,7 +503,7 @@ func (P) Generate(g *core.Gen) {
 		}
 	}
 	// 4. pipeline scenarios: run on the real peer now; the observed trace goes on the line.
-	for i, n := 0, g.N(400, 12000); i < n; i++ {
+	for i, n := 0, g.N(300, 12000); i < n; i++ {
 		c := pipeCfg{nProd: 1 + r.Intn(8), nMsg: 1 + r.Intn(12), seed: r.U64(), invCallers: r.Intn(3)}
 		switch x := r.Intn(20); {
 		case x < 9:
@@ -525,6 +525,9 @@ func (P) Generate(g *core.Gen) {
 			c.nProd, c.nMsg = 8+r.Intn(9), 10+r.Intn(20)
 		}
 		c.fireAt = r.Intn(c.nProd*c.nMsg + 1)
+		if c.invCallers > 0 && r.Chance(1, 2) {
+			c.invExtra = 40 + r.Intn(40)
+		}
 		o := runPipe(c)
 		class := fmt.Sprintf("pipe-mode%d", c.mode)
 		g.Case(class, len(o.written) > 0 || len(o.before) > 0, pipeLine(c, o))
